@@ -1180,7 +1180,7 @@ class Interp:
                     return self.invoke(tgt, args, kwargs, env.get(selfname))
                 if self.strict_self_calls:
                     raise Unsupported("call of %s.%s(), which the model neither knows nor interprets" % (norm(recv), m))
-                return None  # not inlined: treated as a passing no-op
+                return TOP   # not inlined, not hooked: the result is unknown (a call used as a statement is unaffected)
             if norm(fn) == "itertools.groupby" and args and isinstance(args[0], (list, tuple)):
                 return self._groupby(args, kwargs)
             base = self.eval(recv, env, f) if base_pre is _NOT_EVALUATED else base_pre
